@@ -956,10 +956,28 @@ func (s *Sim) asyncStep() {
 		aFlush
 		aSync
 		aRestart
+		aIdle
 	)
-	w := make([]int, 5)
+	w := make([]int, 6)
+	held := false // slow (large) messages that are still on their way
+	if c.SlowPP > 0 {
+		for _, f := range s.inflight {
+			if f.notBefore > s.step {
+				held = true
+				break
+			}
+		}
+	}
 	if len(del) > 0 {
 		w[aDeliver] = 1000
+		if len(tn) > 0 {
+			w[aTimer] = c.WTimer
+		}
+	} else if held {
+		// nothing can be delivered yet, but a slow message is under way: let simulated "network time"
+		// pass (idle steps) instead of firing timers back to back, so that the payload can arrive at
+		// ANY point of a node's step sequence
+		w[aIdle] = 1000
 		if len(tn) > 0 {
 			w[aTimer] = c.WTimer
 		}
@@ -1018,6 +1036,8 @@ func (s *Sim) asyncStep() {
 		n := dead[rA%len(dead)]
 		s.log.Add("restart n%d from %s", n.id, filepath.Base(n.dbPath))
 		s.restart(n)
+	case aIdle:
+		s.stat("idle_wait_for_slow_message", 1)
 	default:
 		s.log.Add("idle")
 	}
